@@ -33,21 +33,28 @@ pub fn generate_shape(tier: Tier) -> Vec<String> {
             "[package]\nname = \"{pkg}\"\nversion = \"0.0.0\"\nedition = \"2021\"\n[dependencies]\nvmodel = {{ path = \"../../vmodel\" }}\nvrt = {{ path = \"../../vrt\" }}\ndarling = {{ workspace = true, features = [\"suggestions\"] }}\nsyn = {{ workspace = true }}\n"
         );
         write_if_changed_pub(&dir.join("Cargo.toml"), &toml);
-        let mut src = String::from("#![allow(dead_code, non_camel_case_types)]\n");
+        let mut src = String::from("#![allow(dead_code, non_camel_case_types)]\nfn keep_body(_: &syn::Data) -> darling::Result<u8> { Ok(0) }\n");
         let mut reg = String::new();
         for m in ms.iter().skip(k * per).take(per) {
             let words: Vec<&str> = WORDS.iter().enumerate().filter(|(i, _)| m >> i & 1 == 1).map(|(_, w)| *w).collect();
-            src.push_str(&format!("#[derive(darling::FromDeriveInput)]\n#[darling(supports({}))]\npub struct S{m} {{}}\nimpl vrt::ToVal for S{m} {{ fn to_val(&self) -> vmodel::ir::Val {{ vmodel::ir::Val::Unit }} }}\n", words.join(", ")));
-            reg.push_str(&format!("    v.push(vrt::shape::ShapeEntry {{ mask: {m}, variant_receiver: false, gathered: false, run: vrt::run::run_from_derive_input::<S{m}> }});\n"));
+            // what else the receiver declares does not bear on the verdict: no members, a
+            // converted body, or a body handed to the receiver's own function
+            let members = match m % 3 {
+                0 => "",
+                1 => " pub ident: syn::Ident, pub data: darling::ast::Data<darling::util::Ignored, darling::util::Ignored> ",
+                _ => " #[darling(with = keep_body)] pub data: u8, pub generics: syn::Generics ",
+            };
+            src.push_str(&format!("#[derive(darling::FromDeriveInput)]\n#[darling(supports({}))]\npub struct S{m} {{{members}}}\nimpl vrt::ToVal for S{m} {{ fn to_val(&self) -> vmodel::ir::Val {{ vmodel::ir::Val::Unit }} }}\n", words.join(", ")));
+            reg.push_str(&format!("    v.push(vrt::shape::ShapeEntry {{ mask: {m}, variant_receiver: false, gathered: false, converts_body: {}, run: vrt::run::run_from_derive_input::<S{m}> }});\n", m % 3 == 1));
         }
         if k == 0 {
             for m in 0..32usize {
                 let words: Vec<&str> = VWORDS.iter().enumerate().filter(|(i, _)| m >> i & 1 == 1).map(|(_, w)| *w).collect();
                 src.push_str(&format!("#[derive(darling::FromVariant)]\n#[darling(supports({}))]\npub struct SV{m} {{}}\nimpl vrt::ToVal for SV{m} {{ fn to_val(&self) -> vmodel::ir::Val {{ vmodel::ir::Val::Unit }} }}\n", words.join(", ")));
-                reg.push_str(&format!("    v.push(vrt::shape::ShapeEntry {{ mask: {m}, variant_receiver: true, gathered: false, run: vrt::run::run_from_variant::<SV{m}> }});\n"));
+                reg.push_str(&format!("    v.push(vrt::shape::ShapeEntry {{ mask: {m}, variant_receiver: true, gathered: false, converts_body: false, run: vrt::run::run_from_variant::<SV{m}> }});\n"));
                 // the same variant receiver gathered over a whole enum by a `data` member
                 src.push_str(&format!("#[derive(darling::FromDeriveInput)]\npub struct SD{m} {{ pub data: darling::ast::Data<SV{m}, darling::util::Ignored> }}\nimpl vrt::ToVal for SD{m} {{ fn to_val(&self) -> vmodel::ir::Val {{ vmodel::ir::Val::Unit }} }}\n"));
-                reg.push_str(&format!("    v.push(vrt::shape::ShapeEntry {{ mask: {m}, variant_receiver: true, gathered: true, run: vrt::run::run_from_derive_input::<SD{m}> }});\n"));
+                reg.push_str(&format!("    v.push(vrt::shape::ShapeEntry {{ mask: {m}, variant_receiver: true, gathered: true, converts_body: true, run: vrt::run::run_from_derive_input::<SD{m}> }});\n"));
             }
         }
         src.push_str(&format!("fn entries() -> Vec<vrt::shape::ShapeEntry> {{\n    let mut v = vec![];\n{reg}    v\n}}\nfn main() {{ vrt::shape::main(entries()); }}\n"));
@@ -81,7 +88,7 @@ pub fn main(args: &Args) {
     let n = masks(args.tier).len();
     rep.set("supports_receivers", json!(n));
     rep.rule = format!(
-        "{n} compiled FromDeriveInput receivers, one per subset of the eleven shape words ({}), x bodies: 6 structs (four styles + empty braces / parens), every enum of 0..{} variants over the four styles, enums of 5..33 variants with the styles in rotation / all of one style, a union; 32 FromVariant receivers (all subsets of named/tuple/newtype/unit/any) x 4 variant shapes, and each of them gathered over whole enums by a `data: ast::Data<_, _>` member (one error per non-conforming variant); the ShapeSet API: all 16 sets x 4 shapes x 4 carriers. Oracle: the documented table (any; additive words; tuple admits newtype; wrong kind rejected with one error; enum: exactly one error per non-conforming variant; union: error, never a crash) and API verdict == derived verdict. states = (declared set, body) pairs evaluated on the table model, all of them replayed on the compiled receivers; non-trivial = pairs the table rejects.",
+        "{n} compiled FromDeriveInput receivers, one per subset of the eleven shape words ({}), rotating through three member sets (none; `ident` + converted `data`; `with`-function `data` + `generics`: the verdict does not depend on them, except that a converted body refuses unions), x bodies: 6 structs (four styles + empty braces / parens), every enum of 0..{} variants over the four styles, enums of 5..33 variants with the styles in rotation / all of one style, a union; 32 FromVariant receivers (all subsets of named/tuple/newtype/unit/any) x 4 variant shapes, and each of them gathered over whole enums by a `data: ast::Data<_, _>` member (one error per non-conforming variant); the ShapeSet API: all 16 sets x 4 shapes x 4 carriers. Oracle: the documented table (any; additive words; tuple admits newtype; wrong kind rejected with one error; enum: exactly one error per non-conforming variant; union: error, never a crash) and API verdict == derived verdict. states = (declared set, body) pairs evaluated on the table model, all of them replayed on the compiled receivers; non-trivial = pairs the table rejects.",
         if args.tier == Tier::Thorough { "all 2048" } else { "all of size <= 2 and their complements" },
         args.tier.pick(3, 4)
     );
